@@ -42,6 +42,11 @@ def fp(obj, depth=0, seen=None):
 
 def module_state():
     out = {}
+    # process-wide numerical state a call could leave behind
+    import numpy as _np
+    out[("numpy", "errstate")] = repr(sorted(_np.geterr().items()))
+    out[("numpy", "printoptions")] = repr(sorted(
+        (k, repr(v)) for k, v in _np.get_printoptions().items()))
     for name, mod in list(sys.modules.items()):
         if not (name == "cobyqa" or name.startswith("cobyqa.")) or \
                 mod is None or ".tests" in name:
